@@ -222,6 +222,15 @@ impl<V: Copy> Pma<V> {
         (r, verif::steps())
     }
 
+    /// `search`, with a panic of the library turned into `Err(message)`.
+    pub fn try_search(&self, m: Method, hay: &[u8], limit: usize, budget: Option<u64>) -> Result<(Vec<M<V>>, u64), String> {
+        let r = std::panic::catch_unwind(std::panic::AssertUnwindSafe(|| self.search(m, hay, limit, budget)));
+        verif::set_step_budget(None);
+        r.map_err(|e| {
+            e.downcast_ref::<String>().cloned().or_else(|| e.downcast_ref::<&str>().map(|s| (*s).to_string())).unwrap_or_else(|| "panic".to_string())
+        })
+    }
+
     pub fn num_states(&self) -> usize {
         match self {
             Pma::B(p) => p.num_states(),
